@@ -43,7 +43,7 @@ def events(r):
         else:
             gets.append(("XGet %s false (B [0]%%uint63)" % gb(w["vaas"][0]), "lookup of slot %d of writer %d after the reopen: not found" % (w["slot"], w["g"])))
     for k in range(1 + int(r.get("later_kills", 0))):
-        ev += ["XCrash", "XReopen"]
+        ev += ["XCrash %d%%nat" % (len(r.get("empty_left") or []) if k == 0 else 0), "XReopen"]
         desc += ["SIGKILL", "Open on the same directory" if k == int(r.get("later_kills", 0)) else "Open on the same directory by the next writer (killed in turn)"]
     for g, d in gets:
         ev.append(g)
@@ -65,7 +65,7 @@ def replay_of(r, msg=None):
 
 
 def mon_key(m):
-    for pat, k in (("what a kill inside memtable file creation leaves", "reopen-empty-memtable-file"), ("did not reopen", "reopen"), ("is missing after the reopen", "acked-lost"), ("not any VAA stored", "foreign-bytes"),
+    for pat, k in (("what a kill inside the creation / deletion", "reopen-empty-log-files"), ("did not reopen", "reopen"), ("is missing after the reopen", "acked-lost"), ("not any VAA stored", "foreign-bytes"),
                    ("although the store of version", "acked-overwrite-lost"), ("present after an earlier reopen", "later-lookup"),
                    ("never written", "foreign-key"), ("cannot have attempted", "foreign-key"), ("closed store", "error-dropped"), ("harness:", "harness")):
         if pat in m:
@@ -88,7 +88,7 @@ def run(ctx):
     ctx.distinct = sum(1 for r in cyc if sum(r["acks"]) > 0)
     ctx.rule = ("kill cycles on ONE store directory: a child process (re-exec of the test binary) opens the store with db.Open and stores a seeded stream of signed VAAs "
                 "(4 concurrent writers, 1 in 6 stores overwrites an earlier identifier of the cycle with new bytes) through db.StoreSignedVAA, reporting each returned call on a pipe; "
-                "SIGKILL 0..300 ms after the first acknowledgement or 0..250 ms after process start (hits start-up / Open / replay of the previous kill's leftovers); the verifier reopens "
+                "SIGKILL 0..300 ms after the first acknowledgement, or 0..250 ms after process start (hits start-up / Open / replay of the previous kill's leftovers), or aimed at the instant a zero-length .mem/.vlog file is visible (the engine is inside the creation or deletion of a log file); directed states: zero-length next .mem / .vlog files planted in every combination seen for real; the verifier reopens "
                 "with db.Open and looks up every identifier of the cycle, iterates the cycle's keys, and re-checks identifiers of earlier cycles (all of them in the last cycle); "
                 "evaluations = lookups after a reopen; distinct = kill cycles in which at least one store was acknowledged before the kill")
     ctx.cov["kill_cycles"] = len(cyc)
@@ -99,6 +99,8 @@ def run(ctx):
     for r in cyc:
         k = r["killmode"] + ("" if r["opened"] else " (before the child's Open returned)")
         ctx.cov["kill_mode_hist"][k] = ctx.cov["kill_mode_hist"].get(k, 0) + 1
+    ctx.cov["aimed_kills_that_saw_an_empty_log_file"] = sum(1 for r in cyc if r.get("aimed_at"))
+    ctx.cov["kills_leaving_empty_log_files_hist"] = hist([len(r.get("empty_left") or []) for r in cyc], [0, 1, 2, 3])
     ctx.cov["kill_delay_ms_hist"] = hist([r["delay_ms"] for r in cyc], [0, 2, 10, 50, 150, 300])
     ctx.cov["reopen_ms_hist"] = hist([r["reopen_ms"] for r in cyc], [50, 100, 200, 500, 2000])
     ctx.cov["reopens_ok"] = sum(1 for r in cyc if r["reopen_ok"])
@@ -143,7 +145,7 @@ def run(ctx):
     ctx.cov["cycles_validated_against_model"] = len(cases)
     ctx.cov["events_validated_against_model"] = sum(len(events(r)[0]) for r in cases)
     ctx.cov["mismatches"] = len(bad)
-    ctx.assumptions = ["ENGINE CONTRACT (trusted, hypothesis `engine_contract`): badger returns nil from Update only after the write is in a form that survives SIGKILL (value log / WAL written to the page cache), a kill loses only un-returned transactions and each of them entirely, and db.Open (badger.Open, tried once more on failure since fix 2c8f6b8) succeeds on whatever a kill leaves — exercised by the kill cycles and by the zero-length memtable file witness, not proved",
+    ctx.assumptions = ["ENGINE CONTRACT (trusted, hypothesis `engine_contract`): badger returns nil from Update only after the write is in a form that survives SIGKILL (value log / WAL written to the page cache), a kill loses only un-returned transactions and each of them entirely, every zero-length .mem/.vlog file a kill leaves fails exactly one badger.Open attempt and is sized by it, and nothing else a kill leaves makes badger.Open fail — exercised by the kill cycles (random, at start-up, aimed at the instant such a file is visible) and by planted combinations of such files, not proved; that db.Open's number of attempts suffices is proved from the extracted loop bound",
                        "process kill, not power loss: badger.DefaultOptions has SyncWrites=false, so an acknowledged write sits in the OS page cache; the property asks for process kills only",
                        "the acknowledgement is observed on a pipe written after StoreSignedVAA returned: a store whose line was not written yet counts as un-acknowledged (may or may not be found)",
                        "identifiers are the Go types' ranges (theorem hypothesis `wf`)"]
